@@ -12,6 +12,9 @@ import (
 	"github.com/relex/slog-agent/util"
 )
 
+// acceptRetryInterval is how long the accept loop waits after a temporary failure of accept()
+const acceptRetryInterval = 50 * time.Millisecond
+
 const (
 	tcpReadBufferMax = 8 * 1024 * 1024 // Less than /proc/sys/net/ipv4/tcp_mem
 	tcpReadBufferMin = 65536
@@ -107,6 +110,12 @@ func (listener *tcpLineListener) run() {
 	for {
 		newConn, acceptErr := listener.socket.AcceptTCP()
 		if acceptErr != nil {
+			if util.IsTemporaryAcceptError(acceptErr) && !listener.stopRequest.Peek() {
+				// e.g. out of file descriptors: existing connections go on, new ones have to wait
+				listener.logger.Warn("failed to accept() connection, to be retried: ", acceptErr)
+				time.Sleep(acceptRetryInterval)
+				continue
+			}
 			if !(listener.stopRequest.Peek() && util.IsNetworkClosed(acceptErr)) {
 				// not closed on stop request
 				listener.logger.Warn("failed to accept() connection while listener is alive: ", acceptErr)
